@@ -34,6 +34,13 @@ User variables (`global` section of the variable files given to the configuratio
 `DSLExperimentConfiguration.__init__` → `override_entrypoint_args`) are a layer above the arguments of
 `entrypoint.execute[0]`: `Namespace.effArgs` (user variable, else entrypoint argument, else declared default).
 
+Component names are `(stage, name)` pairs read out of the step name by `SignatureNamePattern` (`parseName`:
+`stage<N>.x` → `(N, x)`, anything else → `(0, step)`); conflicts are resolved on the pairs (`assignNames`).
+
+Replication: `workflowAttributes.replicate` / `aggregate` of component templates, `can_template_replicate` both
+without (`repWalk` / `isReplica`, used by `flattenOp`) and with its memo dictionaries (`scan` / `walkM` /
+`canReplicateM` / `replicasM`), `%(replica)s` as a runtime variable of replicas (`maskReplica`, `strayPar`).
+
 Repaired behaviour is modelled (fixes/C06-*.diff); the old algorithms are kept as `…Old`.
 -/
 namespace St4sd.Dsl
